@@ -12,11 +12,27 @@ open A2Verif.Fs.Prodos
 open A2Verif.Read.Prodos (entryAt dirChain idxPtr indexEntries readData trimName bitmapFree)
 open A2Verif.Read.ProdosT
 
-/-- every record of the reading of an `Inv` image (no sub-directories) is the record of a file slot -/
+theorem isNameValid_no_slash (nn : Bytes) (h : isNameValid nn = true) : 47 ∉ upper nn := by
+  unfold isNameValid at h
+  cases hu : upper nn with
+  | nil => simp
+  | cons c rest =>
+    rw [hu] at h
+    simp only [Bool.and_eq_true, List.all_eq_true, decide_eq_true_eq] at h
+    intro hx
+    rcases List.mem_cons.mp hx with e | hx'
+    · have := h.1.1; rw [← e] at this; revert this; decide
+    · have := h.1.2 47 hx'; revert this; decide
+
+/-- every record of the reading of an `Inv` image comes from a slot of the volume directory: the record of a file slot, or —
+for the slot of a sub-directory — the directory's record (whose path is the entry's name) or a record of a file in it (whose
+path contains a `/`) -/
 theorem rec_of_slot {r : Raw} (hinv : Inv r) (v : Vol) (fsL : List LRec) (ch : List Nat)
     (hread : Read.ProdosT.read r = .ok v) (htree : readTree r (hdrTotal r) = .ok (fsL, ch)) (f : FileRec) (hf : f ∈ v.files) :
-    ∃ y ∈ dirSlots r 2 ch, (y.1.getD 0 0 / 16 = 1 ∨ y.1.getD 0 0 / 16 = 2 ∨ y.1.getD 0 0 / 16 = 3) ∧
-      Read.ProdosT.readFile r (hdrTotal r) y.1 [] = .ok f := by
+    ∃ y ∈ dirSlots r 2 ch,
+      ((y.1.getD 0 0 / 16 = 1 ∨ y.1.getD 0 0 / 16 = 2 ∨ y.1.getD 0 0 / 16 = 3) ∧
+        Read.ProdosT.readFile r (hdrTotal r) y.1 [] = .ok f) ∨
+      (y.1.getD 0 0 / 16 = 0xD ∧ (f.path = trimName y.1 ∨ 47 ∈ f.path)) := by
   obtain ⟨hw, hn, hroot, hv, hc, hic, hnd, hchf, h2, h6, h3, hbt, hstv⟩ := root_chain_facts hinv v fsL ch hread htree
   have htree' : readDir (69 + 1) r (hdrTotal r) 2 [] 0 = .ok (fsL, ch) := htree
   obtain ⟨hfs, hall, hcnt⟩ := readDir_slots r (hdrTotal r) 69 2 [] 0 fsL ch (by omega) hroot.geo htree'
@@ -30,14 +46,75 @@ theorem rec_of_slot {r : Raw} (hinv : Inv r) (v : Vol) (fsL : List LRec) (ch : L
     by_cases ha : isAct y = true
     · exact ha
     · rw [if_neg ha] at hfy; cases hfy
-  have hst : y.1.getD 0 0 / 16 = 1 ∨ y.1.getD 0 0 / 16 = 2 ∨ y.1.getD 0 0 / 16 = 3 := by
-    rcases hroot.slots y hy with h0 | ⟨hst, _⟩
-    · unfold isAct at hact; rw [h0] at hact; simp at hact
-    · exact hst
-  obtain ⟨f, hrf, hgy, _, _⟩ := slot_file_rec hinv v fsL ch hread htree y hy hst
-  rw [hgy, List.mem_singleton] at hfy
-  subst hfy
-  exact ⟨y, hy, hst, hrf⟩
+  refine ⟨y, hy, ?_⟩
+  rcases hroot.slots y hy with (h0 | ⟨hst, _⟩) | ⟨hd, hsub⟩
+  · unfold isAct at hact; rw [h0] at hact; simp at hact
+  · left
+    obtain ⟨f, hrf, hgy, _, _⟩ := slot_file_rec hinv v fsL ch hread htree y hy hst
+    rw [hgy, List.mem_singleton] at hfy
+    subst hfy
+    exact ⟨hst, hrf⟩
+  · right
+    refine ⟨hd, ?_⟩
+    obtain ⟨z, hz⟩ := hall y hy hact
+    obtain ⟨sch, hc', hnl, hgeo, _, _, _, _, _, hslots⟩ := hsub.chain
+    obtain ⟨fs, sch', hzeq, _, _, _, _, _, hfsub, hallsub, _⟩ := dir_slot_facts hd hz hgeo
+    have hgy : slotRecs 69 r (hdrTotal r) [] 0 y = z := by unfold slotRecs; rw [if_pos hact, hz]; rfl
+    rw [hgy, hzeq] at hfy
+    rcases List.mem_cons.mp hfy with e | hfy'
+    · left; rw [e]; show (baseRec y.1 []).path = _; exact baseRec_path_root _
+    · right
+      have hse : sch' = sch := by
+        have := dir_slot_facts hd hz hgeo
+        obtain ⟨_, s2, he2, hc2, _⟩ := this
+        rw [hzeq] at he2
+        injection he2 with h1 h2
+        have : dirRec y.1 [] sch' = dirRec y.1 [] s2 := (Prod.mk.inj h1).1
+        have hs2 : sch' = s2 := by
+          have := congrArg FileRec.owned this
+          exact this
+        rw [hs2]; rw [hc'] at hc2; injection hc2 with e; exact e.symm
+      subst hse
+      rw [hfsub, List.mem_flatMap] at hfy'
+      obtain ⟨y', hy', hfy''⟩ := hfy'
+      have hact' : isAct y' = true := by
+        unfold slotRecs at hfy''
+        by_cases ha : isAct y' = true
+        · exact ha
+        · rw [if_neg ha] at hfy''; cases hfy''
+      have hst' : y'.1.getD 0 0 / 16 = 1 ∨ y'.1.getD 0 0 / 16 = 2 ∨ y'.1.getD 0 0 / 16 = 3 := by
+        rcases hslots y' hy' with h0 | ⟨h, _⟩
+        · unfold isAct at hact'; rw [h0] at hact'; simp at hact'
+        · exact h
+      obtain ⟨zy, hzy⟩ := hallsub y' hy' hact'
+      obtain ⟨g, hzg, hrg, _⟩ := RE_file 68 r (hdrTotal r) _ 1 y' zy hst' hzy
+      unfold slotRecs at hfy''
+      rw [if_pos hact', hzy, hzg] at hfy''
+      simp only [okD, List.mem_singleton] at hfy''
+      rw [hfy'']
+      show 47 ∈ g.path
+      obtain ⟨hp, _⟩ := readFile_rec_fields r (hdrTotal r) y'.1 _ g hrg
+      rw [hp]
+      have hbp : ∀ pfx : Bytes, pfx.isEmpty = false → (baseRec y'.1 pfx).path = pfx ++ [47] ++ trimName y'.1 := by
+        intro pfx h; unfold baseRec; simp [h]
+      -- the prefix is the directory's name, which is not empty
+      obtain ⟨b, hb, k, hk13, hkey, rfl⟩ := mem_dirSlots.mp hy
+      have hbl : b < r.units.size := by rw [← hinv.size]; exact (hchf b hb).1
+      have hl : (entryAt (unitAt r b) k 39).length = 39 := entryAt_length _ _ (by rw [(hinv.shape.unit hbl).1]; omega)
+      have hne : ((baseRec (entryAt (unitAt r b) k 39) []).path).isEmpty = false := by
+        rw [baseRec_path_root]
+        unfold trimName slice
+        have hm := Nat.mod_lt ((entryAt (unitAt r b) k 39).getD 0 0) (by decide : 16 > 0)
+        cases hcs : List.take ((entryAt (unitAt r b) k 39).getD 0 0 % 16) (List.drop 1 (entryAt (unitAt r b) k 39)) with
+        | nil =>
+          have := congrArg List.length hcs
+          rw [List.length_take, List.length_drop, hl] at this
+          simp only [List.length_nil] at this
+          simp only at hnl
+          omega
+        | cons a l => rfl
+      rw [hbp _ hne]
+      simp
 
 /-- **what the search does not find, the reader does not list**: if no slot of the volume directory holds an active entry
 matching the valid name `nn` among all storage types, the reading has no record with the path `upper nn` -/
@@ -48,28 +125,40 @@ theorem path_not_listed {r : Raw} (hinv : Inv r) (v : Vol) (fsL : List LRec) (ch
   unfold Vol.paths at hp
   rw [List.mem_map] at hp
   obtain ⟨f, hf, hfp⟩ := hp
-  obtain ⟨y, hy, hst, hrf⟩ := rec_of_slot hinv v fsL ch hread htree f hf
+  obtain ⟨y, hy, hcase⟩ := rec_of_slot hinv v fsL ch hread htree f hf
   obtain ⟨_, _, _, _, _, _, _, hchf, _, _, _, _, _⟩ := root_chain_facts hinv v fsL ch hread htree
   obtain ⟨b, hb, k, hk13, hkey, rfl⟩ := mem_dirSlots.mp hy
   have hbl : b < r.units.size := by rw [← hinv.size]; exact (hchf b hb).1
   have hsh := hinv.shape.unit hbl
   have hl : (entryAt (unitAt r b) k 39).length = 39 := entryAt_length _ _ (by rw [hsh.1]; omega)
-  have hname : trimName (entryAt (unitAt r b) k 39) = upper nn := by
-    rw [← hfp, (old_fields r (hdrTotal r) _ f hrf).1]
   have h256 : (entryAt (unitAt r b) k 39).getD 0 0 < 256 := getD_lt_of_bytes _ _ (entryAt_bytes _ _ hsh.2)
-  have hty : (entryAt (unitAt r b) k 39).getD 0 0 / 16 ∈ allTypes := by
-    unfold allTypes stSeedling stSapling stTree stSubDirEntry
-    simp only at hst
-    rcases hst with h | h | h <;> rw [h] <;> simp
-  have hm := isFileMatch_of_trim allTypes nn _ hl hv hty h256 hname
-  have hact : Ent.isActive (entryAt (unitAt r b) k 39) = true := by
-    unfold Ent.isActive Ent.storLen
-    simp only at hst
-    simp only [gt_iff_lt, decide_eq_true_eq]
-    omega
-  have := List.find?_eq_none.mp hnone _ hy
-  unfold isHit at this
-  simp only [hact, hm, Bool.and_self, not_true_eq_false] at this
+  have hcontra : trimName (entryAt (unitAt r b) k 39) = upper nn → (entryAt (unitAt r b) k 39).getD 0 0 / 16 ∈ allTypes →
+      0 < (entryAt (unitAt r b) k 39).getD 0 0 → False := by
+    intro hname hty hpos
+    have hm := isFileMatch_of_trim allTypes nn _ hl hv hty h256 hname
+    have hact : Ent.isActive (entryAt (unitAt r b) k 39) = true := by
+      unfold Ent.isActive Ent.storLen
+      simp only [gt_iff_lt, decide_eq_true_eq]
+      exact hpos
+    have := List.find?_eq_none.mp hnone _ hy
+    unfold isHit at this
+    simp only [hact, hm, Bool.and_self, not_true_eq_false] at this
+  rcases hcase with ⟨hst, hrf⟩ | ⟨hd, hpath⟩
+  · apply hcontra
+    · rw [← hfp, (old_fields r (hdrTotal r) _ f hrf).1]
+    · unfold allTypes stSeedling stSapling stTree stSubDirEntry
+      simp only at hst
+      rcases hst with h | h | h <;> rw [h] <;> simp
+    · simp only at hst; omega
+  · rcases hpath with hp | hp
+    · apply hcontra
+      · rw [← hfp, hp]
+      · unfold allTypes stSeedling stSapling stTree stSubDirEntry
+        simp only at hd
+        rw [hd]; simp
+      · simp only at hd; omega
+    · rw [hfp] at hp
+      exact isNameValid_no_slash nn hv hp
 
 /-- the first part of `rename`: `ok_to_rename` on a path into the volume directory -/
 theorem okToRename_root {d : Disk} {bm cnt : Nat} {ch : List Nat} (c : RootCtx d bm cnt ch) (path nm newName : Bytes)
@@ -115,7 +204,8 @@ theorem modify_protected {d : Disk} {bm cnt : Nat} {ch : List Nat} (c : RootCtx 
 /-- **`rename(path, newName)` refines the abstract `rename`** (files of the volume directory) -/
 theorem rename_refines' {d : Disk} (hs : SInv d) (path nm newName : Bytes)
     (hnodes : normalizePath (volName (hdrOf d.raw)) path = .ok [volName (hdrOf d.raw), nm]) (hnm : nm ≠ [])
-    (hnv : NotVol (volName (hdrOf d.raw)) path) :
+    (hnv : NotVol (volName (hdrOf d.raw)) path)
+    (hnodir : ∀ ch, IsChain d.raw 2 ch → isNameValid nm = true → (dirSlots d.raw 2 ch).find? (isHit [stSubDirEntry] nm) = none) :
     Refines d (Fs.Prodos.rename path newName d) (.rename (upper nm) (upper newName)) := by
   obtain ⟨v, fsL, ch, hr, ht, c, hts, heff, hbsz, hbok⟩ := hs.ctx
   obtain ⟨hw, hn, hroot, hvv, hc, hic, hnd, hchf, h2, h6, h3, hbt, hstv⟩ := root_chain_facts hs.inv v fsL ch hr ht
@@ -147,24 +237,7 @@ theorem rename_refines' {d : Disk} (hs : SInv d) (path nm newName : Bytes)
       split at he
       · cases he
       · split at he <;> cases he
-    have hdk : findDirKeyBlock path d = (.error .pathNotFound, d) := by
-      by_cases hl : nm.length ≤ 15
-      · exact findDirKeyBlock_root c path nm hnodes hnm hnv (no_dir_hit hroot nm hl)
-      · have hinv : isNameValid nm = false := by
-          cases hvv' : isNameValid nm with
-          | false => rfl
-          | true => exact absurd (isNameValid_len nm hvv').2 hl
-        unfold findDirKeyBlock
-        simp only [bind_def]
-        rw [bind_ok _ _ d d _ (getVolHeader_root c)]
-        unfold NotVol at hnv
-        simp only [hnv, ↓reduceIte]
-        have hsv := searchVolume_root c [stSubDirEntry] path nm hnodes hnm
-        unfold rootSearch at hsv
-        rw [hinv] at hsv
-        simp only [Bool.not_false, ↓reduceIte] at hsv
-        rw [bind_ok _ _ d d _ (attempt_err _ d d _ hsv (by decide))]
-        rfl
+    have hdk : findDirKeyBlock path d = (.error .pathNotFound, d) := findDirKeyBlock_nodir c path nm hnodes hnm hnv (hnodir ch hic)
     have hrun : Fs.Prodos.rename path newName d = (.error .pathNotFound, d) := by
       unfold Fs.Prodos.rename; simp only [bind_def]
       rw [bind_ok _ _ d d _ hok, bind_ok _ _ d d _ (attempt_err _ d d e he hep)]
